@@ -491,6 +491,38 @@ func argIndexLERec(e *Env, v ssa.Value, depth int) (LE, bool) {
 			return argIndexLERec(pe, a, depth+1)
 		}
 	case *ssa.Phi:
+		// `b := args[0]; if sender == receiver { b = args[1] }`: an element whose (constant) position depends on the side — a
+		// start index in disguise: its own atom with one value per side
+		if len(x.Edges) == 2 {
+			sndRcv := func(f Fact) bool {
+				return !f.Lin && f.Pos && strings.HasPrefix(f.Atom, "eq(") && strings.Contains(f.Atom, "P:sndAddr") && strings.Contains(f.Atom, "P:rcvAddr")
+			}
+			vals := map[string]int64{}
+			for i, ed := range x.Edges {
+				l, ok := argIndexLERec(e, ed, depth+1)
+				if !ok || !l.isConst() {
+					vals = nil
+					break
+				}
+				pb := x.Block().Preds[i]
+				side := "destination"
+				if _, so := e.CutAt(pb.Instrs[len(pb.Instrs)-1], sndRcv, nil); so {
+					side = "sender"
+				} else {
+					for _, f := range e.EdgeFacts()[edge{pb, x.Block()}] {
+						if sndRcv(f) {
+							side = "sender"
+						}
+					}
+				}
+				vals[side] = l.k
+			}
+			if len(vals) == 2 {
+				t := "argpos(" + e.Term(x) + ")"
+				startPhiAtoms[t] = vals
+				return leAtom(t), true
+			}
+		}
 		for _, ed := range x.Edges {
 			if l, ok := argIndexLERec(e, ed, depth+1); ok {
 				return l, true
